@@ -538,6 +538,10 @@ fn tl_menu(prop: &str, tier: Tier) -> Vec<(TlCfg, usize, usize)> {
             for (fpr, samples) in [(0.6, 4usize), (0.9, 4), (0.99, 8), (0.3, 3), (1e-9, 2)] {
                 v.push((TlCfg { size: 2, samples, fpr, seeds: seeds[0], hashes: base_hashes.clone(), key_ops: false }, if big { 400_000 } else { 60_000 }, if big { 40 } else { 12 }));
             }
+            // rows of 32 and more counters (word-at-a-time code paths): 33 raw hashes cover every counter index
+            // modulo 32 in every row whatever the seeds; three accesses, then the reset of a 4-access window
+            v.push((TlCfg { size: 32, samples: 4, fpr: 0.01, seeds: seeds[0], hashes: (0..33).collect(), key_ops: false }, if big { 2_000_000 } else { 400_000 }, 4));
+            v.push((TlCfg { size: 64, samples: 4, fpr: 0.01, seeds: seeds[3], hashes: (0..65).step_by(2).chain(31..32).chain(63..64).collect(), key_ops: false }, if big { 2_000_000 } else { 400_000 }, 4));
             if big {
                 // a wider sweep of sketch geometries (row widths 4..128 counters, every seed set)
                 for (i, size) in [3usize, 5, 8, 32, 64, 100].into_iter().enumerate() {
@@ -751,10 +755,18 @@ fn sl_eval(cfg: &SlCfg, hist: &[SlOp]) -> EvalOut {
             }
         };
         let _ = slot;
+        // outside the domain: the true running total itself does not fit in an i64 (nothing is judged there)
+        let tot: i128 = map.values().map(|v| *v as i128).sum();
+        if tot > i64::MAX as i128 || tot < i64::MIN as i128 {
+            return out;
+        }
         match caught(|| s.apply(*op)) {
             Err(m) => {
                 if last {
                     out.findings.push(Finding::new("C05", "no_panic", format!("SampledLFU:{}", crate::panics::location_of(&m)), format!("{:?} panicked after {:?}: {}", op, &hist[..i], m)));
+                    // every running total of this history is representable (checked above): the accounting has no
+                    // outcome "panic"
+                    out.findings.push(Finding::new("C20", "accounting_operation_completes", disc.clone(), format!("{:?} panicked after {:?} although every exact total involved fits in an i64: {}", op, &hist[..i], m)));
                 }
                 return out;
             }
@@ -770,10 +782,14 @@ fn sl_eval(cfg: &SlCfg, hist: &[SlOp]) -> EvalOut {
             }
         }
     }
-    let total: i64 = map.values().sum();
+    let total: i64 = map.values().map(|v| *v as i128).sum::<i128>() as i64;
     let checks = caught(|| {
         let mut f = vec![];
         for c in [-1i64, 0, 1] {
+            let fits = |x: i128| x <= i64::MAX as i128 && x >= i64::MIN as i128;
+            if !fits(total as i128 + c as i128) || !fits(max as i128 - total as i128 - c as i128) {
+                continue; // the exact answer itself is not representable
+            }
             let got = s.room_left(c);
             if got != max - total - c {
                 f.push(Finding::new("C20", "room_left_is_exact", disc.clone(), format!("room_left({}) = {} but max_cost {} minus recorded costs {} minus {} is {}, after {:?}", c, got, max, total, c, max - total - c, hist)));
@@ -821,7 +837,9 @@ fn sl_eval(cfg: &SlCfg, hist: &[SlOp]) -> EvalOut {
         key.extend_from_slice(&c.to_le_bytes());
     }
     key.extend_from_slice(&max.to_le_bytes());
-    key.extend_from_slice(&s.room_left(0).to_le_bytes());
+    // (only where max - total is representable at all)
+    let drift = if (max as i128 - total as i128) <= i64::MAX as i128 && (max as i128 - total as i128) >= i64::MIN as i128 { caught(|| s.room_left(0)).unwrap_or(i64::MIN) } else { 0 };
+    key.extend_from_slice(&drift.to_le_bytes());
     out.key = Some(key);
     out
 }
@@ -861,6 +879,11 @@ pub fn run_sampled(prop: &'static str, tier: Tier) -> EngineReport {
     for (ctor, samples) in [(1u8, 7usize), (3, 6), (5, 8), (6, 9), (1, usize::MAX), (6, usize::MAX / 2)] {
         menu.push((SlCfg { ctor, max_cost: 10, samples, costs: vec![-3, 5], hasher: HKind::Identity, hashes: vec![] }, if big { 60 } else { 10 }));
     }
+    // costs next to the ends of the i64 range whose true totals still fit: a replacement must not add before it subtracts
+    // (alphabets in which every running total and every difference of two costs is representable: beyond that the
+    // exact answers themselves are not, and nothing is judged)
+    menu.push((SlCfg { ctor: 0, max_cost: i64::MAX, samples: 2, costs: vec![i64::MAX - 1, 7], hasher: HKind::SipA, hashes: vec![0, 1] }, if big { 60 } else { 8 }));
+    menu.push((SlCfg { ctor: 2, max_cost: -3, samples: 2, costs: vec![i64::MIN + 9, -7], hasher: HKind::Zero, hashes: vec![0, 1] }, if big { 60 } else { 8 }));
     if big {
         // wider alphabets: five hashed keys (ends and middle of the u64 range), more cost values
         menu.push((SlCfg { ctor: 3, max_cost: 100, samples: 4, costs: vec![-3, 1, 5], hasher: HKind::Fnv, hashes: vec![0, 1, 2, 1 << 32, u64::MAX] }, 60));
@@ -892,6 +915,41 @@ pub fn run_sampled(prop: &'static str, tier: Tier) -> EngineReport {
                 rep.violations.push(Extra { finding: f, case: json!({"engine": "sampledlfu", "cfg": cfg, "history": h}), count: 1 });
             }
         }
+    }
+    // trackers with many keys: repeated fill_sample calls (any internal cursor has to wrap correctly), every number
+    // of tracked keys 0..=40, every sample size of the list, inputs of length 0 and 1
+    if prop == "C20" {
+        let mut runs = 0u64;
+        for samples in [1usize, 2, 5, 7, 16] {
+            for n in 0..=40u64 {
+                let r = caught(|| {
+                    let mut s: SampledLFU<u64> = SampledLFU::with_samples(1_000_000, samples);
+                    for k in 0..n {
+                        s.increment_hashed_key(1000 + k * 7919, (k as i64 % 5) + 1);
+                    }
+                    let mut bad = None;
+                    for call in 0..(3 * n as usize + 8) {
+                        let inp: Vec<(u64, i64)> = if call % 3 == 2 { vec![(5, 5)] } else { vec![] };
+                        let got = s.fill_sample(inp.clone());
+                        let want_len = if inp.len() >= samples { inp.len() } else { samples.min(inp.len() + n as usize) };
+                        let genuine = got[inp.len().min(got.len())..].iter().all(|(k, c)| *k >= 1000 && (*k - 1000) % 7919 == 0 && (*k - 1000) / 7919 < n && *c == (((*k - 1000) / 7919) as i64 % 5) + 1);
+                        let distinct: BTreeSet<u64> = got.iter().map(|x| x.0).collect();
+                        if got.len() != want_len || !genuine || distinct.len() != got.len() || got[..inp.len().min(got.len())] != inp[..] {
+                            bad = Some(format!("call #{} of fill_sample({:?}) on a tracker with {} keys and sample size {} returned {} pairs {:?}, expected {} genuine distinct pairs", call, inp, n, samples, got.len(), got, want_len));
+                            break;
+                        }
+                    }
+                    bad
+                });
+                runs += 1;
+                if let Ok(Some(b)) = r {
+                    rep.violations.push(Extra { finding: Finding::new("C20", "fill_sample", format!("large/samples={}", samples), b), case: json!({"engine": "sampledlfu-large", "tracked": n, "samples": samples}), count: 1 });
+                }
+            }
+        }
+        rep.evaluations += runs;
+        rep.transitions += runs;
+        details.push(json!({"pass": "repeated fill_sample on trackers with 0..=40 keys", "sample_sizes": [1, 2, 5, 7, 16], "executions": runs}));
     }
     rep.capped = if rep.exhaustive { None } else { Some("state or depth cap hit in some configuration (see detail)".into()) };
     rep.detail = json!(details);
